@@ -41,7 +41,7 @@ def sample_module(ctx, n):
         late = any_ != "none" and typed != "none" and r.random() < 0.5
         ptyped = "default" if any_ != "none" else r.choice(["default", "default", "Restart", "Resume", "Escalate"])
         c = {"strat": r.choice(["one", "all", "all"]), "typed": typed, "ptyped": ptyped, "any": any_, "late": late,
-             "max": r.choice([0, 1, 1, 2]), "win": r.choice(["zero", "short", "short", "long"]), "backoff": r.random() < 0.25}
+             "max": r.choice([0, 1, 1, 2]), "win": r.choice(["zero", "short", "short", "long"]), "backoff": r.random() < 0.25, "mix": r.random() < 0.35}
         cfgs.append(c)
     pcs = [{"dir": d, "onsig": o} for d in DIRS for o in ("ignore", "fail")]
     path = ctx.tmp("GenSample.tla")
@@ -70,7 +70,7 @@ def witnesses():
                                          ("Restart", "default", ("c2", "A"), ("c1", "P")),
                                          ("Stop", "Restart", ("c1", "P"), ("c2", "A"))):
         cfg = {"strat": "all", "typed": typed, "ptyped": ptyped, "any": "none", "late": False, "max": 0, "win": "short",
-               "backoff": True, "delayms": 1500}
+               "backoff": True, "mix": False, "delayms": 1500}
         w.append({"cfg": cfg, "pcfg": {"dir": "Stop", "onsig": "ignore"}, "kids": ["c1", "c2"],
                   "ops": [{"op": "Fault", "a": first[0], "e": first[1]},
                           {"op": "Fault", "a": second[0], "e": second[1], "when": "pending"}]})
@@ -93,19 +93,45 @@ def run(ctx, pid):
             out[name] = gen(ctx, *a, **kw)
         except Exception as e:      # noqa
             out[name] = e
-    th = [threading.Thread(target=g, args=("exh", "Gen_Supervise.cfg" if quick else "Gen_Supervise_t.cfg"),
-                           kwargs={"timeout": 900 if quick else 3000}),
+    def mc(name, cfg, module, must, **kw):
+        """design-level obligations: `must` = None (holds) or the invariant that a stale Defects set would no longer violate"""
+        try:
+            r = ctx.tlc(SPEC, cfg, module=module, expect_fail=must is not None, name=cfg[:-4], **kw)
+            if must is None and r.violated:
+                raise vlib.Infra("design-level check failed: %s violates %s\n%s" % (cfg, r.violated, r.counterexample()[:3000]))
+            if must is not None and r.violated != must:
+                raise vlib.Infra("stale Defects set: %s should violate %s, got %s" % (cfg, must, r.violated or r.error or "no violation"))
+            out[name] = r
+        except Exception as e:      # noqa
+            out[name] = e
+    th = [threading.Thread(target=g, args=("exh", "Gen_Supervise.cfg"), kwargs={"timeout": 900 if quick else 3000}),
+          threading.Thread(target=g, args=("win", "Gen_Supervise_win.cfg"), kwargs={"timeout": 900 if quick else 3000}),
           threading.Thread(target=g, args=("sim", "Gen_Supervise_sim.cfg" if quick else "Gen_Supervise_sim_t.cfg"),
-                           kwargs={"simulate": "num=%d" % (230 if quick else 6000), "files": {"GenSample.tla": sample},
-                                   "timeout": 900 if quick else 3000})]
+                           kwargs={"simulate": "num=%d" % (230 if quick else 4000), "files": {"GenSample.tla": sample},
+                                   "timeout": 900 if quick else 3300}),
+          # overlapping failures in the model: a pending restart does not resurrect a stopped child (repaired design)
+          threading.Thread(target=mc, args=("ov", "MC_SuperviseOv_fixed.cfg", "MC_SuperviseOv", None), kwargs={"timeout": 900, "workers": 2})]
+    if not quick:
+        th += [threading.Thread(target=g, args=("exh3", "Gen_Supervise_t.cfg"), kwargs={"timeout": 3300}),
+               threading.Thread(target=mc, args=("ovd", "MC_SuperviseOv_defect.cfg", "MC_SuperviseOv", "NoResurrection"), kwargs={"timeout": 900, "workers": 2}),
+               threading.Thread(target=mc, args=("dw", "MC_Supervise_dwrace.cfg", "MC_Supervise", "Conforms"), kwargs={"timeout": 1800, "workers": 2})]
     for t in th:
         t.start()
     for t in th:
         t.join()
-    for k in ("exh", "sim"):
+    if not quick:
+        # larger design-level runs, two at a time: 3 children over the whole configuration domain; 3 operations
+        th = [threading.Thread(target=mc, args=("mct", "MC_Supervise_t.cfg", "MC_Supervise", None), kwargs={"timeout": 3400, "workers": 4}),
+              threading.Thread(target=mc, args=("mct3", "MC_Supervise_t3.cfg", "MC_Supervise", None), kwargs={"timeout": 3400, "workers": 4})]
+        for t in th:
+            t.start()
+        for t in th:
+            t.join()
+    for k in out:
         if isinstance(out[k], Exception):
             raise out[k] if isinstance(out[k], vlib.Infra) else vlib.Infra(repr(out[k]))
-    (exh, r1), (sim, r2) = out["exh"], out["sim"]
+    (exh, r1), (sim, r2), (win, r3) = out["exh"], out["sim"], out["win"]
+    exh3 = out["exh3"][0] if not quick else []
     seen, uniq = set(), []
     for b in sim:
         k = key(b)
@@ -113,27 +139,30 @@ def run(ctx, pid):
             seen.add(k)
             uniq.append(b)
     sim = uniq
-    if len(exh) < 2000 or len(sim) < 100:
-        raise vlib.Infra("behaviour generation produced too little (%d exhaustive, %d random)" % (len(exh), len(sim)))
-    n_exh_all = len(exh)
-    if quick:   # the quick tier replays a seeded sample of the exhaustive set
-        exh = vlib.sample(ctx.rng, exh, 1400)
+    if len(exh) < 2000 or len(sim) < 100 or len(win) < 500:
+        raise vlib.Infra("behaviour generation produced too little (%d + %d exhaustive, %d random)" % (len(exh), len(win), len(sim)))
+    n_exh_all = len(exh) + len(win)
+    if quick:   # the quick tier replays a seeded sample of the exhaustive sets
+        exh = vlib.sample(ctx.rng, exh, 1150) + vlib.sample(ctx.rng, win, 300)
         sim = sim[:220]
-    if not quick:
-        # larger design-level runs: more operations, the whole configuration domain, 3 children
-        mc = ctx.tlc_must_hold(SPEC, "MC_Supervise_t.cfg", module="MC_Supervise", timeout=3000, workers=6)
-        ctx.log("design (thorough): %d distinct states, Conforms holds" % mc.distinct)
+    else:       # thorough: every history of length 2, a seeded sample of those of length 3, the random walks
+        n_exh3_all = len(exh3)
+        exh3 = vlib.sample(ctx.rng, exh3, 7000)
+        sim = sim[:3000]
+        ctx.log("design (thorough): MC_Supervise_t %d, MC_Supervise_t3 %d distinct states, Conforms holds; %d histories of length 3 generated"
+                % (out["mct"].distinct, out["mct3"].distinct, n_exh3_all))
+        exh = exh + win + exh3
     wit = witnesses()
     behaviours = exh + sim + wit
     bfile = ctx.tmp("behaviours.ndjson")
     vlib.write_ndjson(bfile, behaviours)
     ctx.log("behaviours: %d of %d exhaustive + %d random + %d overlap witnesses; design: %d + %d states, Conforms holds"
-            % (len(exh), n_exh_all, len(sim), len(wit), r1.distinct, r2.generated))
+            % (len(exh), n_exh_all, len(sim), len(wit), r1.distinct + r3.distinct, r2.generated))
 
     # 2. replay on the real actor system
     exe = ctx.build("supervision")
     trace = ctx.tmp("trace.ndjson")
-    p = ctx.run([exe, "replay", bfile, trace, "10"], timeout=900 if quick else 3000)
+    p = ctx.run([exe, "replay", bfile, trace, "10" if quick else "12"], timeout=900 if quick else 3000)
     stats = json.loads(p.stdout.strip().splitlines()[-1])
     nlines = stats["events"]
     if stats["behaviours"] != len(behaviours):
@@ -236,12 +265,13 @@ def run(ctx, pid):
         "evaluations": len(behaviours), "distinct_nontrivial": len({key(b) for b in behaviours if nontrivial(b)}),
         "rule": "behaviour = supervisor configuration (strategy, typed / PanicError / any-error directives, late typed rule, retry "
                 "budget, window class, backoff) x parent configuration x sequence of environment operations (Fault(actor, error "
-                "type), Tick past the short window, Reinstate) at quiescence; exhaustive = every history of length D over the core "
-                "configuration set (TLC BFS, c1/c2 symmetry broken), random = TLC -simulate walks over a seeded sample of the whole "
+                "type), Tick past the short window, Reinstate) at quiescence; exhaustive = every history of length 2 over the core "
+                "configuration set and every history of length 4 with a Tick over the restart-window set (TLC BFS, c1/c2 symmetry broken), random = TLC -simulate walks over a seeded sample of the whole "
                 "domain; non-trivial = at least two failures",
         "exhaustive_histories_generated": n_exh_all, "exhaustive_histories_replayed": len(exh), "random_walks": len(sim),
         "overlap_witnesses": len(wit),
-        "exhaustive": (not quick), "events_validated": nlines, "operations_executed": stats["ops"],
+        "exhaustive": (not quick), "exhaustive_note": "thorough replays every history of length 2 of the core set; quick a seeded sample",
+        "events_validated": nlines, "operations_executed": stats["ops"],
         "configurations": len({json.dumps(b["cfg"], sort_keys=True) for b in behaviours}),
         "monitor_mismatches": len(mism), "known_witnesses": len(known), "not_quiescent_behaviours": len(unjudged),
         "conformance_drift": drift, "conformance_drifted_behaviours": len(drifted),
